@@ -35,6 +35,10 @@ var (
 	flagC01Budget = flag.Duration("c01budget", 0, "internal: worker time budget")
 )
 
+// watchdog is a generous hang detector for busy loops in the code under test;
+// it never produces a violation, only a cap.
+const watchdog = 600 * time.Second
+
 const fixedClockNS = int64(1_790_000_000) * 1_000_000_000
 
 var clausePriority = map[string]int{}
@@ -128,7 +132,7 @@ func safeRun(c *Case) (res *result, hung bool) {
 	case res = <-done:
 		sortFails(res.Fails)
 		return res, false
-	case <-time.After(180 * time.Second):
+	case <-time.After(watchdog):
 		return nil, true
 	}
 }
@@ -180,7 +184,7 @@ func workerMain(thorough bool, shard string, budget time.Duration) {
 		res, hung := safeRun(c)
 		if hung {
 			b, _ := json.Marshal(c)
-			out.Capped = fmt.Sprintf("case index %d did not finish within 180 s (busy loop?): %s", idx, b)
+			out.Capped = fmt.Sprintf("case index %d did not finish within 600 s (busy loop?): %s", idx, b)
 			return
 		}
 		out.Cases++
@@ -226,7 +230,7 @@ func replayMain(c *harness.Check) {
 	vsched.SetClock(fixedClockNS)
 	res, hung := safeRun(&cs)
 	if hung {
-		harness.Fatal("replayed case did not finish within 180 s")
+		harness.Fatal("replayed case did not finish within 600 s")
 	}
 	fmt.Printf("replay case: %s\n", b)
 	fmt.Printf("transport writes: %v\nrefused-as-configured: %v\n", res.Logs, res.Refused)
